@@ -287,7 +287,7 @@ class EnvWizard(AbstractEnvWizard):
                             var_name = name
                             part = f'({name} := get_env(_var_name))'
 
-                        fn_gen.add_line(f'_name={name!r}; _env_var={env_var!r}; _var_name=f"{{_env_prefix}}{var_name}" if _env_prefix else {var_name!r}')
+                        fn_gen.add_line(f'_name={name!r}; _env_var={env_var!r}; _var_name="%s%s" % (_env_prefix, {var_name!r}) if _env_prefix else {var_name!r}')
 
                         with fn_gen.if_(f'{name} is not MISSING or {part} is not MISSING'):
                             parser_name = f'_parser_{name}'
